@@ -1596,7 +1596,7 @@ func (dsc *dataStoreCommand) lmpop(keyNames []string, left bool, count int) (out
 	defer dsc.unlock()
 
 	var result []any
-	elements := make([]any, 0, count)
+	elements := []any{} // (not pre-sized: the count comes from the client and may be huge)
 
 	for _, keyName := range keyNames {
 		list, err := dsc.getListUnlocked(keyName)
